@@ -106,6 +106,10 @@ def build():
         le = List(Even)
         de = Dict(Str, Even)
         se = Set(Even)
+        # containers with NON-EMPTY declared defaults: building the default validates its items (user callbacks)
+        led = List(Even, [2, 4])
+        ded = Dict(Str, Even, {"a": 2, "b": 4})
+        sed = Set(Even, {2, 4})
         u = Union(Even, Str)
         ei = Either(Even, Trait("", fnval))
         base = Int(1)
@@ -161,6 +165,8 @@ def build():
     o.on_trait_change(lambda: (tick("items_handler"), LOG.append("items")), "le_items")
     o.observe(lambda ev: (tick("obs_items_handler"), LOG.append("obs_items")), "le.items")
     o.on_trait_change(lambda: LOG.append("pdep"), "pdep")
+    for cn in ("led", "ded", "sed"):
+        o.on_trait_change(lambda: LOG.append("cdef"), cn)
     o.proto = Partner()
     o.on_trait_change(lambda: LOG.append("pe"), "pe")
     partner = Partner()
@@ -170,7 +176,7 @@ def build():
     return o
 
 
-DEFAULTS = {"e": 0, "le": [], "de": {}, "se": set(), "u": 0, "ei": 0, "q": "<unset>", "t": 0, "tl": [], "base": 1}
+DEFAULTS = {"led": [2, 4], "ded": {"a": 2, "b": 4}, "sed": {2, 4}, "e": 0, "le": [], "de": {}, "se": set(), "u": 0, "ei": 0, "q": "<unset>", "t": 0, "tl": [], "base": 1}
 
 
 def snapshot(o):
@@ -217,6 +223,8 @@ OPS = {
     "set dynv bad": lambda o: setattr(o, "dynv", 3),
     "read fac": lambda o: o.fac,
     # deleting a stored value of a listened-to trait: the new default is computed for the notification
+    "del led": lambda o: delattr(o, "led"), "del ded": lambda o: delattr(o, "ded"), "del sed": lambda o: delattr(o, "sed"),
+    "read led": lambda o: list(o.led), "set led": lambda o: setattr(o, "led", [6, 8]),
     "del dynv": lambda o: delattr(o, "dynv"),
     "del dyn": lambda o: delattr(o, "dyn"),
     "read p": lambda o: o.p,
@@ -243,6 +251,7 @@ OPS = {
 PREFIX = {
     "e=2": lambda o: setattr(o, "e", 2), "le=[2,4]": lambda o: setattr(o, "le", [2, 4]), "de.update": lambda o: o.de.update({"a": 2}),
     "se={2}": lambda o: o.se.update([2]), "read p": lambda o: o.p, "read pdep": lambda o: o.pdep, "read dyn": lambda o: o.dyn, "t=2": lambda o: setattr(o, "t", 2),
+    "led=[6]": lambda o: setattr(o, "led", [6]), "ded={c:6}": lambda o: setattr(o, "ded", {"c": 6}), "sed={6}": lambda o: setattr(o, "sed", {6}),
     "dynv=4": lambda o: setattr(o, "dynv", 4), "dynv=6": lambda o: setattr(o, "dynv", 6), "dyn=7": lambda o: setattr(o, "dyn", 7),
     "pe=2": lambda o: setattr(o, "pe", 2), "proto.e=2": lambda o: setattr(o.proto, "e", 2),
     "tl=[2]": lambda o: setattr(o, "tl", [2]), "q=1": lambda o: setattr(o, "q", 1), "base=2": lambda o: setattr(o, "base", 2),
@@ -253,11 +262,12 @@ FOLLOW = {
     "base=5": lambda o: setattr(o, "base", 5), "partner.e=8": lambda o: setattr(o.__dict__["_partner"], "e", 8), "t=6": lambda o: setattr(o, "t", 6),
     "partner.le.append": lambda o: o.__dict__["_partner"].le.append(4), "tl.append": lambda o: o.tl.append(8), "read t": lambda o: o.t,
     "read tl": lambda o: list(o.tl), "e=bad": lambda o: setattr(o, "e", 5),
+    "read led": lambda o: list(o.led), "read ded": lambda o: dict(o.ded), "read sed": lambda o: sorted(o.sed), "led.append": lambda o: o.led.append(10),
     "proto.e=6": lambda o: setattr(o.proto, "e", 6), "proto.e=8": lambda o: setattr(o.proto, "e", 8), "read pe": lambda o: o.pe,
     "pe=10": lambda o: setattr(o, "pe", 10), "del pe": lambda o: delattr(o, "pe"),
 }
 PROBE = ("read p", "read pdep", "read dyn", "read dynv", "e=10", "read p", "read pdep", "e=6", "read p", "read pdep",
-         "partner.e=8", "read t", "partner.le.append", "read tl", "read pe", "proto.e=6", "read pe", "proto.e=8", "read pe")
+         "partner.e=8", "read t", "partner.le.append", "read tl", "read pe", "proto.e=6", "read pe", "proto.e=8", "read pe", "read led", "read ded", "read sed", "led.append", "read led")
 HANDLER_SITES = {"static_handler": "static", "otc_handler": "otc", "obs_handler": "obs", "items_handler": "items",
                  "obs_items_handler": "obs_items"}
 SYNC_OPS = ("sync scalar", "sync scalar bad", "sync list")
